@@ -91,6 +91,21 @@ impl<'tcx> Cx<'tcx> {
         let s = with_crate_prefix!(with_no_visible_paths!(with_no_trimmed_paths!(format!("{}", t))));
         self.fixc(s)
     }
+    fn macros_s(&self, sp: Span) -> String {
+        // names of the macros in the expansion chain of a span, innermost first (e.g. ["assert","debug_assert"])
+        let mut names: Vec<String> = Vec::new();
+        let mut cur = sp;
+        let mut guard = 0;
+        while cur.from_expansion() && guard < 16 {
+            let ed = cur.ctxt().outer_expn_data();
+            if let rustc_span::ExpnKind::Macro(_, name) = ed.kind {
+                names.push(esc(&name.to_string()));
+            }
+            cur = ed.call_site;
+            guard += 1;
+        }
+        format!("[{}]", names.join(","))
+    }
     fn span_s(&self, sp: Span) -> String {
         // For code coming out of a macro, report the outermost call site (what the user wrote),
         // and say so with a trailing '!'.
@@ -572,11 +587,12 @@ impl<'tcx> Cx<'tcx> {
                         ts.push(format!("[{},{}]", v, self.bb(b)));
                     }
                     format!(
-                        "{{\"k\":\"switch\",\"discr\":{},\"targets\":[{}],\"otherwise\":{},\"span\":{}}}",
+                        "{{\"k\":\"switch\",\"discr\":{},\"targets\":[{}],\"otherwise\":{},\"span\":{},\"macros\":{}}}",
                         self.operand(owner, body, discr),
                         ts.join(","),
                         self.bb(targets.otherwise()),
-                        sp
+                        sp,
+                        if exp { self.macros_s(term.source_info.span) } else { "[]".to_string() }
                     )
                 }
                 TerminatorKind::UnwindResume => "{\"k\":\"resume\"}".to_string(),
@@ -605,14 +621,15 @@ impl<'tcx> Cx<'tcx> {
                     let a: Vec<String> =
                         args.iter().map(|x| self.operand(owner, body, &x.node)).collect();
                     format!(
-                        "{{\"k\":\"call\",\"callee\":{},\"args\":[{}],\"dst\":{},\"target\":{},\"unwind\":{},\"span\":{},\"exp\":{}}}",
+                        "{{\"k\":\"call\",\"callee\":{},\"args\":[{}],\"dst\":{},\"target\":{},\"unwind\":{},\"span\":{},\"exp\":{},\"macros\":{}}}",
                         callee,
                         a.join(","),
                         self.place(body, destination),
                         target.map(|t| self.bb(t).to_string()).unwrap_or("null".to_string()),
                         self.unwind(unwind),
                         sp,
-                        exp
+                        exp,
+                        if exp { self.macros_s(term.source_info.span) } else { "[]".to_string() }
                     )
                 }
                 TerminatorKind::TailCall { .. } => "{\"k\":\"tailcall\"}".to_string(),
